@@ -192,6 +192,38 @@ func (v *Env) PrepareTx(signers []neotest.Signer, h util.Uint160, method string,
 	return v.E.SignTx(v.T, tx, 30_0000_0000, signers...)
 }
 
+// PrepareTxScoped is PrepareTx with an explicit witness scope per signer (the
+// first signer is the transaction's sender). Signers with the same account are
+// listed once, with the first scope given.
+func (v *Env) PrepareTxScoped(signers []neotest.Signer, scopes []transaction.WitnessScope, h util.Uint160, method string, args ...any) *transaction.Transaction {
+	tx := v.E.NewUnsignedTx(v.T, h, method, args...)
+	var sgs []neotest.Signer
+	seen := map[util.Uint160]bool{}
+	for i, sg := range signers {
+		if seen[sg.ScriptHash()] {
+			continue
+		}
+		seen[sg.ScriptHash()] = true
+		tx.Signers = append(tx.Signers, transaction.Signer{Account: sg.ScriptHash(), Scopes: scopes[i]})
+		sgs = append(sgs, sg)
+	}
+	neotest.AddNetworkFee(v.T, v.BC, tx, sgs...)
+	tx.SystemFee = 30_0000_0000
+	for _, sg := range sgs {
+		if err := sg.SignTx(v.BC.GetConfig().Magic, tx); err != nil {
+			v.T.Fatalf("sign: %v", err)
+		}
+	}
+	return tx
+}
+
+// InvokeScoped is Invoke with explicit witness scopes.
+func (v *Env) InvokeScoped(signers []neotest.Signer, scopes []transaction.WitnessScope, h util.Uint160, method string, args ...any) Result {
+	tx := v.PrepareTxScoped(signers, scopes, h, method, args...)
+	b := v.E.AddNewBlock(v.T, tx)
+	return v.ResultOf(tx, b)
+}
+
 // ResultOf reads the application log of tx.
 func (v *Env) ResultOf(tx *transaction.Transaction, b *block.Block) Result {
 	aer := v.E.GetTxExecResult(v.T, tx.Hash())
